@@ -138,3 +138,56 @@ def attr_chain(node: ast.AST) -> list[str]:
     else:
         out.append('?')
     return list(reversed(out))
+
+
+def _bindings(fn, name: str) -> list:
+    out = []
+    for n in walk_no_defs(fn.node):
+        if isinstance(n, ast.Assign):
+            for t in n.targets:
+                for x in ast.walk(t):
+                    if isinstance(x, ast.Name) and x.id == name:
+                        out.append(n.value if (len(n.targets) == 1 and t is x) else None)
+        elif isinstance(n, (ast.AugAssign, ast.AnnAssign)) and isinstance(n.target, ast.Name) and n.target.id == name:
+            out.append(n.value if isinstance(n, ast.AnnAssign) and n.value is not None else None)
+        elif isinstance(n, ast.NamedExpr) and n.target.id == name:
+            out.append(n.value)
+        elif isinstance(n, (ast.For, ast.comprehension)):
+            if any(isinstance(x, ast.Name) and x.id == name for x in ast.walk(n.target)):
+                out.append(None)
+        elif isinstance(n, (ast.With,)):
+            for it in n.items:
+                if it.optional_vars is not None and any(isinstance(x, ast.Name) and x.id == name for x in ast.walk(it.optional_vars)):
+                    out.append(None)
+        elif isinstance(n, ast.ExceptHandler) and n.name == name:
+            out.append(None)
+    return out
+
+
+def local_single_assignment(fn, name: str):
+    """the value expression of the ONLY binding of the local NAME in fn; None when NAME is a parameter, is bound more
+    than once, or is bound by anything else than `name = <expr>` / `name: T = <expr>` / `(name := <expr>)`"""
+    if name in fn.params:
+        return None
+    b = _bindings(fn, name)
+    return b[0] if len(b) == 1 else None
+
+
+def conjuncts(fn, test, depth: int = 0) -> list:
+    """the conjuncts of TEST, looking through `and` and through locals bound exactly once (`ok = a and b; if ok:`)"""
+    if isinstance(test, ast.BoolOp) and isinstance(test.op, ast.And):
+        return [c for v in test.values for c in conjuncts(fn, v, depth)]
+    if isinstance(test, ast.Name) and depth < 4:
+        v = local_single_assignment(fn, test.id)
+        if v is not None:
+            return conjuncts(fn, v, depth + 1)
+    return [test]
+
+
+def through_locals(fn, e, depth: int = 0):
+    """E with a Name bound exactly once in fn replaced by the bound expression (`x = f(); return x` -> `f()`)"""
+    if isinstance(e, ast.Name) and depth < 4:
+        v = local_single_assignment(fn, e.id)
+        if v is not None:
+            return through_locals(fn, v, depth + 1)
+    return e
